@@ -130,4 +130,24 @@ Proof.
       * exists dropped. rewrite E3, app_assoc. reflexivity.
 Qed.
 
+(* whatever one parse() call on the whole stream delivers while ending idle, every fragmentation of that stream delivers:
+   on the reference machine always, on the machine as implemented whenever the run is quiet *)
+Theorem whole_call_any_fragmentation wire ms frags :
+  parse reference C k init wire = (init, ms, None) -> concat_bytes frags = wire ->
+  run_keep reference C k init frags = (init, ms, None) /\
+  (quiet_run C k init frags = true -> run_keep real C k init frags = (init, ms, None)).
+Proof.
+  intros P Ec.
+  assert (RL : run_keep reference C k init frags = (init, ms, None)).
+  { rewrite (run_keep_is_one_call reference C k eq_refl eq_refl eq_refl frags init); [| apply init_quiescent | exact I | exact I].
+    rewrite Ec. exact P. }
+  split; [exact RL|]. intros Q. rewrite (run_real frags init Q).
+  assert (R0 : Rst init init) by reflexivity.
+  pose proof (run_sim C k frags init init R0 I I) as S. rewrite RL in S.
+  destruct S as [(se' & Ee & R) | (_ & D)].
+  - rewrite Ee. f_equal. f_equal. unfold Rst in R. change (cur init) with (@None inflight) in R.
+    destruct se' as [b c]. cbn [cur buf] in R. destruct c as [i|]; [contradiction|]. cbn in R. subst b. reflexivity.
+  - exfalso. destruct D as (il & HS' & x' & Cu & _). discriminate.
+Qed.
+
 End Bridge.
